@@ -102,7 +102,7 @@ void h_subtract(void) {
 
 UNIT = {
     "id": "fi_map", "property": "C12",
-    "clause": "reverse-purge hash map, bounded stand-in on tables of 4..8 (quick: lookup/insert 8 slots, delete/purge 4 slots) and 8..16 (thorough) slots with fully symbolic well-formed contents (8 slots = LG_MIN_MAP_SIZE is a real "
+    "clause": "reverse-purge hash map, bounded stand-in on tables of 4..8 (quick: lookup/insert 8 slots, delete/purge 4 slots) and 8..16 (thorough; the purge pass stays at 4 slots) slots with fully symbolic well-formed contents (8 slots = LG_MIN_MAP_SIZE is a real "
               "configuration): lookup returns the stored weight or 0; adjust-or-insert adds exactly the weight to that key (inserting it if new), keeps the table invariant and every "
               "other key; hash_delete's back-shift keeps every other key retrievable; the purge pass keeps exactly the counters above the amount, reduced by it",
     "consts": [{"file": H, "pattern": r"static constexpr (?P<type>double|uint16_t|uint32_t) (?P<name>LOAD_FACTOR|DRIFT_LIMIT|MAX_SAMPLE_SIZE) = (?P<value>[^;]+);", "min_count": 3}],
@@ -113,7 +113,8 @@ UNIT = {
     "jobs": [{"name": "%s_%dslots" % (n, 1 << lg), "entry": "h_" + n, "defines": {"LG": lg}, "unwind": (1 << lg) + 2, "timeout": 7200 if tier == "thorough" else 900,
               "kind": "bounded", "bound": "hash table of %d slots, contents fully symbolic under the table invariant" % (1 << lg), "tier": tier, "canary": tier == "quick"}
              for (n, lg, tier) in [("get", 3, "quick"), ("insert", 3, "quick"), ("delete", 2, "quick"), ("subtract", 2, "quick"),
-                                   ("delete", 3, "thorough"), ("subtract", 3, "thorough"), ("get", 4, "thorough"), ("insert", 4, "thorough")]],
+                                   ("delete", 3, "thorough"), ("get", 4, "thorough"), ("insert", 4, "thorough")]],
+    # the purge pass on 8 slots did not finish in 45 minutes of solver time (kissat): not registered; 4 slots is the bound for it in both tiers
     "assumptions": ["K = V = uint64_t; fmix64(std::hash(key)) is an uninterpreted deterministic function of the key; E = equality",
                     "larger tables: only covered by this bounded stand-in (a path-quantified table invariant is out of reach of ghost-index contracts)"],
 }
